@@ -10,6 +10,18 @@ CLAIMED = {
              "order. Hooks' bodies (inflation, oracle) are not part of this property.",
         technique="Lean 4 proof (induction over block histories) + differential correspondence model vs real keeper",
         ref="§7 C14"),
+    "C13": dict(
+        text="Lean 4 theorems over an executable model of the x/inflation AfterEpochEnd hook, provision formula (in the SDK's 18-digit "
+             "decimal arithmetic, itself modelled and differentially validated), allocation and toggle/edit: for every history of "
+             "day-epoch ends, toggles and parameter edits from coherent counters, each enabled epoch mints exactly the scheduled amount "
+             "for period floor(g/E) (0 after MaxPeriod), disabled epochs mint nothing and do not advance the schedule; the parts are "
+             "non-negative truncated proportions summing to the minted amount and the module account ends empty.",
+        note="Trusted: Lean kernel; correspondence harness (real inflation/bank/distribution/sudo keepers); counters < 2^62; positivity of "
+             "the provision below MaxPeriod is the property's hypothesis (Positive); incoherent genesis counters are outside the "
+             "property's domain (witness theorem documents it). The real-number floor reading of the formula is not proved; the "
+             "formula is read in the code's decimal arithmetic.",
+        technique="Lean 4 proof (counter-coherence invariant, induction over op histories) + differential correspondence",
+        ref="§7 C13"),
 }
 
 PENDING_REASON = "not claimed yet: model/proofs for this property are still being built (see DESIGN.md §9 build order)"
